@@ -193,7 +193,27 @@ fn cmap(spec: &FontSpec) -> Vec<u8> {
             recs.push((3, 1, cmap4(&bmp)));
             recs.push((3, 10, cmap12(&spec.cmap)));
         }
+        CmapFormat::Records(mask) => {
+            assert!(mask != 0, "fontgen: CmapFormat::Records with no record");
+            let best = (0..8).find(|k| mask & (1 << k) != 0).unwrap();
+            let n = spec.num_glyphs.max(2);
+            let decoy: Vec<(u32, u16)> = spec.cmap.iter().map(|(c, g)| (*c, (g % (n - 1)) + 1)).collect();
+            for k in 0..8usize {
+                if mask & (1 << k) == 0 {
+                    continue;
+                }
+                let map = if k == best { &spec.cmap } else { &decoy };
+                let (p, e) = CMAP_RANKED[k];
+                if k < 3 {
+                    recs.push((p, e, cmap12(map)));
+                } else {
+                    let bmp: Vec<(u32, u16)> = map.iter().copied().filter(|(c, _)| *c <= 0xFFFF).collect();
+                    recs.push((p, e, cmap4(&bmp)));
+                }
+            }
+        }
     }
+    recs.sort_by_key(|r| (r.0, r.1));
     let mut o = Obj::new();
     o.u16(0).count(recs.len(), "cmap records");
     let mut off = 4 + 8 * recs.len();
